@@ -45,6 +45,11 @@ def check(run):
     for i in range(nrand):
         s = refexp.gen_session(rng, maxes=[0, 1, 2, 3], nops=rng.randrange(1, 40))
         sessions.append(s + ("rand",))
+    # maxima around the 32-bit boundary and at the top of the 64-bit member (a block is then never full in a short session)
+    for i in range(120 if quick else 3000):
+        s = refexp.gen_session(rng, maxes=[2**32, 2**32 + 1, 2**32 + 2, 2**32 + 3, 2**33, 2**31, 2**63, 2**64 - 1], nops=rng.randrange(3, 30))
+        sessions.append(s + ("rand",))
+        run.count("sessions with max_block_items >= 2^31")
     res = E.run_sessions(run, sessions, need_lean=False)
     model = G.run_driver([s[1].abstract for s in sessions]) if run.driver_ok else [None] * len(sessions)
     seen = set()
